@@ -1,5 +1,6 @@
 \* quick oracle facet: EVERY challenge value and EVERY pair of binding factors, one nonce pair;
 \* q = 11, n = 3, t = 2, three sampled polynomials, one attempt
+\* measured: 37,029 distinct / 258,099 generated states, 19 s
 CONSTANTS
   Q = 11
   NSet = {3}
